@@ -42,3 +42,31 @@ NOT_CARRIED = ["a component body that itself writes Broker.instances (bodies are
                "dr.run's own body (argument normalisation and the SerializedArchiveContext pruning branch) is not under contract; "
                "the lemma composes run_order and run_components as dr.run's last line does",
                "get_dependency_graph / walk_dependencies (closure over mutable state): not under contract"]
+
+
+def bounded(check):
+    """bounded stand-in / native witness search: the real dr.run on every small dependency graph against a reference evaluation"""
+    import json, os, subprocess
+    here = os.path.dirname(os.path.dirname(os.path.abspath(__file__)))
+    args = ["3"] + (["full"] if check.tier != "quick" else [])
+    p = subprocess.run(["/venv/bin/python", os.path.join(here, "bounded", "dr_small_scope.py"), check.repo.root] + args,
+                       stdout=subprocess.PIPE, stderr=subprocess.PIPE, universal_newlines=True, timeout=6000)
+    line = (p.stdout.strip().splitlines() or ["{}"])[-1]
+    try:
+        info = json.loads(line)
+    except ValueError:
+        info = {"error": (p.stderr or p.stdout)[-400:]}
+    out = dict(name="real dr.run == reference evaluation (at most once, after dependencies, seeds kept, fires iff requirements met, arguments in "
+                    "declaration order, faults contained and accounted)", level="bounded",
+               bound="every graph of <= 3 plain components (per earlier component: none / required / optional / one of two at-least-one groups / "
+                     "required and grouped) x outcomes (value%s, skip, crash) x {nothing, failing observer, one disabled, one seeded with a value, one "
+                     "seeded with None, partial graph} x store_skips" % (", None" if check.tier != "quick" else ""),
+               result=info, violation=(p.returncode == 1), error=(p.returncode not in (0, 1)))
+    if p.returncode == 1:
+        os.makedirs(os.path.join(here, "replays"), exist_ok=True)
+        path = os.path.join(here, "replays", "%s-bounded.json" % check.pid)
+        json.dump(dict(obligation="bounded:dr-small-scope", witness=info,
+                       replay_cmd="/venv/bin/python %s %s %s" % (os.path.join(here, "bounded", "dr_small_scope.py"), check.repo.root, " ".join(args))),
+                  open(path, "w"), indent=1)
+        out["replay"] = path
+    return [out]
